@@ -575,6 +575,25 @@ def _rejects(ctx, ex: ExcAnalysis, abs_: Abs):
               'encapsulee that is neither system nor component')
     for what, ok, msg, node in single_instance_gate(ctx):
         run.add('C13.rejects', gsi.module.name, gsi.qualname, what, ok, msg, node=node)
+    # the kind guards (`isinstance(x, ast.Component)`, get_single_instance(ast.Enum)) only discriminate while the declaration
+    # classes are unrelated: a declaration class deriving from another one passes the guard written for its base
+    amod = prog.module('ast')
+    fc = amod.classes.get('FileContents')
+    kinds = []
+    if fc is not None:
+        for _f, (ann, _d, _o) in prog.class_fields(fc).items():
+            t = prog.ann_to_type(amod, ann, fc)
+            if t[0] == 'list' and strip_opt(t[1])[0] == 'cls' and strip_opt(t[1])[1] in prog.classes:
+                kinds.append(prog.classes[strip_opt(t[1])[1]])
+    if len(kinds) < 7:
+        run.error('C13.rejects', amod.name, 'FileContents', 'declaration kinds', f'only {len(kinds)} declaration classes found (8 confirmed)')
+    for k in kinds:
+        supers = [a for a in prog.ancestors(k) if not isinstance(a, str) and a is not k and a in kinds]
+        run.add('C13.rejects', amod.name, k.name, f'kind {k.name} disjoint', not supers,
+                f'ast.{k.name} derives from no other declaration class' if not supers else
+                f'ast.{k.name} derives from ast.{supers[0].name}: a {k.name} passes every guard that admits a {supers[0].name} '
+                f'(isinstance / get_single_instance), so an input that must be refused - e.g. a {k.name.lower()} encapsulee - is '
+                f'accepted', node=k.node)
     # multiclient settings
     n_mc = 0
     for s in ast.walk(cmc.node):
